@@ -63,6 +63,9 @@ def plan(tier, seed):
     for b, kk in (('fortran', 8), ('default', 2), ('torch', 2), ('jax', 2)):
         cases += [{'family': 'rational_numbers', 'cseed': rnd.randrange(1 << 30), 'backend': b, 'mode': 'vf', 'prec': 'float64'}
                   for _ in range(kk if tier == 'quick' else kk * 10)]
+    # three or four Fortran builds one after the other in one process, under one file name
+    cases += [{'family': 'fortran_sequence', 'cseed': rnd.randrange(1 << 30), 'backend': 'fortran', 'mode': 'vf', 'prec': 'float64',
+               'n_others': 2 + (i % 2)} for i in range(6 if tier == 'quick' else 60)]
     opened = open_risks(PID)
     k = 6 if tier == 'quick' else 40
     for feat in FOCUS:
@@ -186,6 +189,14 @@ def run_rational_case(case, ctx):
 def run_case(case, ctx):
     if case.get('family') == 'rational_numbers':
         return run_rational_case(case, ctx)
+    if case.get('family') == 'fortran_sequence':
+        # several Fortran builds in ONE process (same file name): each build must be the model it was asked for, i.e. agree with the
+        # reference like the other backends do (machinery shared with C13)
+        from vp.props import c13
+        res = c13.run_fortran_case(case, ctx)
+        res.setdefault('mech', {})['fortran_cases'] = 1
+        res['mech']['fortran_sequences'] = 1
+        return res
     rnd = random.Random(case['cseed'])
     b, mode, prec = case['backend'], case['mode'], case['prec']
     want = case.get('want')
